@@ -3,6 +3,7 @@ import PugModel.Tpl.Compile
 import PugModel.JS.Spec
 import PugModel.Pug.Spec
 import PugModel.Pug.AttrSpec
+import PugModel.JS.HeapSpec
 /-! `render` cases: structured pug document + JSON data → the model's output class and bytes. -/
 namespace Pug.Driver
 open Lean Pug Pug.Tpl
@@ -130,7 +131,12 @@ def runRender (c : Json) : Json × Json :=
   | .ok doc =>
     let spec := if jstr c "oracle" == "js-expr" then jsSpec doc (jget c "data")
       else if jstr c "oracle" == "pug" then pugSpec doc (jget c "data")
-      else if jstr c "oracle" == "attrs" then attrSpec doc (jget c "data") else .null
+      else if jstr c "oracle" == "attrs" then attrSpec doc (jget c "data")
+      else if jstr c "oracle" == "js-heap" then
+        (match JS.HeapSpec.run doc (match jsOfJson (jget c "data") with | .obj ps => ps | _ => []) with
+          | some s => okOut s
+          | none => clsOut "spec-domain")
+      else .null
     if jstr c "modes" == "both" then
       (Json.mkObj [("prod", renderModel doc (jget c "data") (jstrs c "funcs") false),
                    ("debug", renderModel doc (jget c "data") (jstrs c "funcs") true)], spec)
